@@ -22,6 +22,7 @@
      premaybe   variables maybe assigned before the entry (superset of predef)
      inout      borrowed variables: initial liveness value of EVERY block (the code
                 passes them as LivenessAnalysis(initial=...))
+     iev        evidence block of the initial liveness value (the exit block's index, 0 = none)
      iu         include_unreachable flag of the liveness pass (TRUE in CFG.analyze, FALSE
                 for the capture analysis of nested functions in cfg/bb.py)
    Serves C09 (schedule independence, equality with the path solution), C10
@@ -74,7 +75,7 @@ LiveAfter(b) == JoinLive([i \in 1..Len(LiveSuccSeq(b)) |-> vb[LiveSuccSeq(b)[i]]
 \* apply_bb: {x: bb for x in used} | {x: b for x, b in live_after.items() if x not in assigned}
 ApplyLive(after, b) == Merge([x \in Used(b) |-> Ev(b)], Restrict(after, Vars \ Ass(b)))
 
-InitLive == [x \in Inout |-> Ev(0)]            \* evidence = the exit block in the code; abstracted to 0
+InitLive == [x \in Inout |-> Ev(G.iev)]        \* evidence = the exit block in the code (iev; 0 when the graph has none)
 
 PopLive(b) ==
     LET before == ApplyLive(LiveAfter(b), b) IN
@@ -115,7 +116,7 @@ InitFor(gg, m) ==
     /\ mode = m
     /\ queue = 1..Graphs[gg].n
     /\ IF m = "live"
-       THEN /\ vb = [b \in 1..Graphs[gg].n |-> [x \in Set(Graphs[gg].inout) |-> Ev(0)]]
+       THEN /\ vb = [b \in 1..Graphs[gg].n |-> [x \in Set(Graphs[gg].inout) |-> Ev(Graphs[gg].iev)]]
             /\ va = <<>>
        ELSE LET allv == UNION {Set(Graphs[gg].assigned[b]) : b \in 1..Graphs[gg].n} \cup Set(Graphs[gg].predef)
                 i == <<allv, Set(Graphs[gg].premaybe)>> IN
